@@ -315,8 +315,10 @@ def subtree_box(prog: Program) -> RuleResult:
 
     nonneg_names: set = set()
 
+    param_names = [a.arg for a in fn.args.args if a.annotation is not None and "DrawParams" in ast.unparse(a.annotation)] or ["params"]
+
     def is_nonneg(key: str) -> bool:
-        if key.startswith("params."):
+        if any(key.startswith(pn + ".") for pn in param_names):
             return True
         if re.fullmatch(r"child[01]\['size'\]\.[wh]", key):
             return True
